@@ -1493,7 +1493,7 @@ class Lattice3D:
                 if (
                     np.isnan(particle.px)
                     or np.isnan(particle.py)
-                    or np.isnan(particle.py)
+                    or np.isnan(particle.pz)
                 ):
                     raise ValueError("Particle data contains NaN values.")
                 kernel_value = multivariate_normal(
